@@ -19,6 +19,9 @@ from . import interp as ip
 from .core import Unsupported, EngineError
 
 _INTERP = None
+CROSSCHECK = bool(os.environ.get('PYVC_CROSSCHECK'))
+XCHECK_PER_UNIT = int(os.environ.get('PYVC_XCHECK_PER_UNIT', '6'))
+REPLAYER = None         # set by main: the property module's native replay function
 
 
 def S_or(xs):
@@ -53,6 +56,8 @@ class Ctx(object):
         self.notes = []
         self.evals = 0          # bounded units: evaluations
         self.distinct = set()
+        self.xchecks = 0
+        self.xresults = []
 
     def explore(self, path, **kw):
         """paths of path(st), counted"""
@@ -70,7 +75,32 @@ class Ctx(object):
             v = vc.prove(st.pc, side, goal)
         except z3.Z3Exception as e:
             v = vc.Verdict('undecided', backend='z3', note='z3 error: %s' % e)
-        return self.record(st, name, v, info, replay)
+        ok = self.record(st, name, v, info, replay)
+        if ok and CROSSCHECK and REPLAYER is not None and self.xchecks < XCHECK_PER_UNIT:
+            self.crosscheck(st, side)
+        return ok
+
+    def crosscheck(self, st, side):
+        """engine vs CPython: draw concrete values satisfying this path's condition, build the native objects and
+        run the real function; the contract just *proved* on this path must hold natively, otherwise the
+        interpreter or a kernel contract misrepresents Python / NumPy (checker failure, exit 3)"""
+        ob = dict(self.obls[-1])
+        s = core.mk_solver(3000)
+        s.add(*st.pc)
+        s.add(*side)
+        if s.check() != z3.sat:
+            return
+        self.xchecks += 1
+        ob['model'] = vc.model_dict(s.model())
+        ob['config'] = self.unit.config
+        try:
+            nat = REPLAYER(ob)
+        except Exception as e:
+            nat = {'reproduced': False, 'detail': 'replay harness error %r' % (e,), 'error': True}
+        if nat is None or 'no native concretisation' in str(nat.get('detail', '')):
+            self.xchecks -= 1
+            return
+        self.xresults.append({'obligation': ob['id'], 'model': ob['model'], 'native': nat})
 
     def prove_cases(self, st, name, goal, cases, info=None, replay=None):
         """goal proved separately under each of the (jointly exhaustive) case conditions; exhaustiveness is an
@@ -180,7 +210,7 @@ def run_unit(unit):
         'bounded_in': unit.bounded_in, 'expect': unit.expect,
         'obligations': ctx.obls, 'paths': ctx.paths, 'secs': round(time.time() - t0, 3), 'error': err,
         'stats': dict(vc.STATS), 'touched': touched, 'evals': ctx.evals, 'distinct': len(ctx.distinct),
-        'notes': ctx.notes,
+        'notes': ctx.notes, 'crosschecks': ctx.xresults,
     }
 
 
